@@ -5,8 +5,14 @@ import props.c01_names as N
 import props.c01_star as S
 
 PID = "C01"
-THEOREMS = CLOSURE_THEOREMS + ["PauLie.Tie.census_tie"] + N.EXTRA_THEOREMS + S.EXTRA_THEOREMS
-IMPORTS = CLOSURE_IMPORTS + ["PauLieVerif.Proofs.TieCensus"] + N.EXTRA_IMPORTS + S.EXTRA_IMPORTS
+COMP_THEOREMS = ["PauLie.C01Comp." + t for t in [
+    "C01Comp_closure", "C01Comp_inter", "C01Comp_size", "C01Comp_blocks", "C01Comp_subgraphs", "C01_componentwise",
+    "C01_componentwise_typeA", "C01Comp_invariants", "C01Comp_invariants_blocks", "C01Comp_merge",
+    "C01_componentwise_full", "C01_componentwise_typeA_full"]] + ["PauLie.C01Star." + t for t in [
+    "C01_typeA_full", "C01_from_C02_typeA_full", "TypeA.inv_clo", "TypeAL.inv_clo"]] + [
+    "PauLie.C19.invOfClosure_soFib", "PauLie.C19.invOfClosure_of_blocks", "PauLie.C03.invOfClosure_perm_closed"]
+THEOREMS = CLOSURE_THEOREMS + ["PauLie.Tie.census_tie"] + N.EXTRA_THEOREMS + S.EXTRA_THEOREMS + COMP_THEOREMS
+IMPORTS = CLOSURE_IMPORTS + ["PauLieVerif.Proofs.TieCensus"] + N.EXTRA_IMPORTS + S.EXTRA_IMPORTS + ["PauLieVerif.Properties.C01Comp", "PauLieVerif.Properties.C01CompFull", "PauLieVerif.Properties.C01StarFull"]
 
 def batch_oracle(lines, outs):
     colls = [inputs_of(l) for l in lines]
